@@ -429,7 +429,7 @@ class HolderSetInput(Contract):
     prop = ("C16", "C14")
     top_level = True
     cases = tuple((rule, shape, neut) for rule in (False, True) for shape in ("one-definition-period", "longer-period", "eternity-period")
-                  for neut in (False, True))
+                  for neut in (False, True)) + ((True, "longer-period-given-before", False),)
     descr = ("an input goes through the variable's spreading rule whenever it has one - also for a single definition period, which "
              "is what keeps values set before from being overwritten - and is stored directly otherwise; an eternal period for a "
              "dated variable is refused; inputs of a neutralised variable are ignored")
@@ -452,12 +452,22 @@ class HolderSetInput(Contract):
         if shape == "one-definition-period":
             p = sym_period(I, ctx, "month")
             ctx.assume(zi(p.items[2]) == 1)
-        elif shape == "longer-period":
+        elif shape in ("longer-period", "longer-period-given-before"):
             p = sym_period(I, ctx, "year")
         else:
             p = mk_period(I, "eternity", mk_instant(I, -1, -1, -1), -1)
-        return {"self": h, "period": p, "array": nparr.NArr(ctx.fresh_int("n"), lambda i: Sym(z3.Real("x")), "float", "input"),
-                "__calls": calls, "__case": case}
+        a = {"self": h, "period": p, "array": nparr.NArr(ctx.fresh_int("n"), lambda i: Sym(z3.Real("x")), "float", "input"),
+             "__calls": calls, "__case": case}
+        if shape == "longer-period-given-before":
+            # history: the same input was given for the same period before (and pieces may have been deleted since): it goes through
+            # the rule again - the rule decides from what the holder holds now
+            f, _ = self.target(I)
+            ctx.depth += 1
+            try:
+                I.inline_call(ctx, f, [], {"self": h, "period": p, "array": a["array"]})
+            finally:
+                ctx.depth -= 1
+        return a
 
     @staticmethod
     def local_contracts():
@@ -475,6 +485,10 @@ class HolderSetInput(Contract):
             return [("inputs-of-a-neutralised-variable-are-ignored", out[0] == "return" and not calls and not sets)]
         if out[0] != "return":
             return [("no-exception", False)]
+        if shape == "longer-period-given-before":
+            return [("an-input-given-again-goes-through-the-spreading-rule-again",
+                     len(calls) == 2 and calls[1][0] is a["self"] and calls[1][1] is a["period"] and calls[1][2] is a["array"]),
+                    ("not-stored-behind-the-rule's-back", not sets)]
         if rule:
             return [("spreading-rule-applied-once-whatever-the-period",
                      len(calls) == 1 and calls[0][0] is a["self"] and calls[0][1] is a["period"] and calls[0][2] is a["array"]),
